@@ -68,6 +68,7 @@ char const *const all_entries[] = {
     // slice 3
     "vector<int,1>", "vector<int,2>", "vector<int,3>", "vector<int,2>/view", "vector<int,2>/mixed-storage", "dim<int,1>",
     "dim<int,2>", "dim<int,3>", "dim<int,2>/mixed-storage", "matrix<int,2,2>", "matrix<int,1,3>", "matrix<int,3,1>",
+    "vector<key-tag,3>", "dim<key-tag,3>",
     // slice 4
     "box<int,1>", "box<int,2>", "box<unsigned,1>", "sphere<int,1>", "sphere<int,2>", "grid<int,1>", "grid<int,2>",
     // slice 5
@@ -2423,9 +2424,98 @@ void matrix_family(std::string const &entry, bool with_views)
                             return std::visit([](auto const &x) { return std::hash<std::remove_cvref_t<decltype(x)>>()(x); }, a.v);
                           }));
 }
+// ---- an element type whose == is FINER than its < (ordered by key, equal on key and tag: legal, like a record ordered
+// by one member).  vector / dim operator< are documented as the lexicographic comparison: by the elements' operator<
+// alone.  Judged: agreement with that definition, and the strict-weak-order axioms over the whole family (irreflexive,
+// asymmetric, transitive, incomparability transitive); == stays component-wise equality.
+struct fine
+{
+  int key = 0, tag = 0;
+  friend bool operator==(fine const &a, fine const &b) { return a.key == b.key && a.tag == b.tag; }
+  friend bool operator!=(fine const &a, fine const &b) { return !(a == b); }
+  friend bool operator<(fine const &a, fine const &b) { return a.key < b.key; }
+};
+template <template <class, fm::size_type, class> class Obj, template <class, fm::size_type> class Static>
+void finer_equality_family(std::string const &entry)
+{
+  if (!entry_selected(entry))
+    return;
+  constexpr fm::size_type N = 3;
+  using V = Static<fine, N>;
+  std::vector<V> vals;
+  std::vector<std::array<fine, N>> plain;
+  for (unsigned code = 0; code < 64; ++code)
+  {
+    std::array<fine, N> a{};
+    unsigned c = code;
+    for (auto &e : a)
+    {
+      e.key = static_cast<int>(c & 1U);
+      e.tag = static_cast<int>((c >> 1U) & 1U);
+      c >>= 2U;
+    }
+    plain.push_back(a);
+    vals.push_back(V(a[0], a[1], a[2]));
+  }
+  if (!vf::begin_case("all 64 values with (key,tag) components in {0,1}^2, all pairs and triples"))
+    return;
+  vf::sample_case(1);
+  std::size_t const n = vals.size();
+  std::vector<unsigned char> lt(n * n);
+  for (std::size_t i = 0; i < n; ++i)
+    for (std::size_t j = 0; j < n; ++j)
+    {
+      vf::note_distinct(vf::hash_mix(vf::hash_str(entry), i * 64 + j));
+      bool const l = vals[i] < vals[j];
+      lt[i * n + j] = l ? 1 : 0;
+      bool const want = std::lexicographical_compare(plain[i].begin(), plain[i].end(), plain[j].begin(), plain[j].end());
+      if (l != want)
+        vf::violation(entry + "/</differs-from-the-documented-lexicographic-comparison", "mismatch", "values #" + std::to_string(i) + " and #" + std::to_string(j));
+      if ((vals[i] > vals[j]) != std::lexicographical_compare(plain[j].begin(), plain[j].end(), plain[i].begin(), plain[i].end()))
+        vf::violation(entry + "/>/differs-from-the-documented-lexicographic-comparison", "mismatch", "values #" + std::to_string(i) + " and #" + std::to_string(j));
+      if ((vals[i] == vals[j]) != (plain[i] == plain[j]) || (vals[i] != vals[j]) == (plain[i] == plain[j]))
+        vf::violation(entry + "/==/not-component-wise", "mismatch", "values #" + std::to_string(i) + " and #" + std::to_string(j));
+    }
+  vf::add_evals(4 * n * n);
+  bool reported = false;
+  auto const incomparable = [&](std::size_t a, std::size_t b) { return !lt[a * n + b] && !lt[b * n + a]; };
+  for (std::size_t i = 0; i < n && !reported; ++i)
+  {
+    if (lt[i * n + i])
+    {
+      vf::violation(entry + "/</not-irreflexive", "mismatch", "value #" + std::to_string(i));
+      reported = true;
+    }
+    for (std::size_t j = 0; j < n && !reported; ++j)
+    {
+      if (lt[i * n + j] && lt[j * n + i])
+      {
+        vf::violation(entry + "/</not-asymmetric", "mismatch", "");
+        reported = true;
+      }
+      for (std::size_t k = 0; k < n && !reported; ++k)
+      {
+        if (lt[i * n + j] && lt[j * n + k] && !lt[i * n + k])
+        {
+          vf::violation(entry + "/</not-transitive", "mismatch", "values #" + std::to_string(i) + ", #" + std::to_string(j) + ", #" + std::to_string(k));
+          reported = true;
+        }
+        if (incomparable(i, j) && incomparable(j, k) && !incomparable(i, k))
+        {
+          vf::violation(entry + "/</incomparability-not-transitive(not-a-strict-weak-order)", "mismatch",
+                        "values #" + std::to_string(i) + ", #" + std::to_string(j) + ", #" + std::to_string(k));
+          reported = true;
+        }
+      }
+    }
+  }
+  VF_COUNT("order/finer-equality-families");
+}
 } // namespace
 void vf_slice_3()
 {
+  finer_equality_family<fm::vector::object, fm::vector::static_>("vector<key-tag,3>");
+  finer_equality_family<fm::dim::object, fm::dim::static_>("dim<key-tag,3>");
   linear_family<fm::vector::object, fm::vector::static_, 1, 0>("vector<int,1>");
   linear_family<fm::vector::object, fm::vector::static_, 2, 0>("vector<int,2>");
   linear_family<fm::vector::object, fm::vector::static_, 3, 0>("vector<int,3>");
